@@ -218,6 +218,14 @@ def run_point(ctx: Ctx, model, which):
         okb = all(e[3].get("branch") == "BR" for e in cp.get("log_at_solve", []) if e[0] == "spreading_pressure_at")
         ctx.ob(okb, Finding("C13.I-residual", fi.where, f"{which}|branch", "spreading pressures must be queried with the caller's branch"),
                nontrivial_key=(which, NC, "branch"))
+        # the pure-component loadings of the mixing rule belong to the same branch as the spreading pressures that were equated
+        lat_calls = [e for e in lg[len(cp.get("log_at_solve", [])):] if e[0] == "loading_at"]      # reads made after the solve (the starting guess is not content)
+        okl = bool(lat_calls) and all(e[3].get("branch") == "BR" for e in lat_calls)
+        ctx.ob(okl, Finding("C13.I-mixing", fi.where, f"{which}|mixing-branch",
+                            f"{which}(branch='BR'): the pure-component loadings of the ideal-mixing rule are read with "
+                            f"{sorted({repr(e[3].get('branch', '<default>')) for e in lat_calls})}: for an isotherm with hysteresis the total loading is "
+                            "then computed from another branch than the one whose spreading pressures were equated"),
+               nontrivial_key=(which, NC, "mixing-branch"))
         if bad:
             continue
         # I-mixing: in the caller's component order
